@@ -99,9 +99,12 @@ def Sm.isLit : Sm → Bool
   | .intLit | .decLit | .strLit _ => true
   | _ => false
 
+
 inductive UnK
-  | neg | not | isNull | length | upper | lower | abs | sqrt | ln | exp | sign | year | month | day | extractYear
-  | count | sum | min | max | avg | sumOver | maxOver | countOver | avgOver
+  | neg | not | isNull | length | upper | lower | abs | sqrt | ln | exp | sign | ceil | floor | round
+  | year | month | day | extractYear
+  | count | sum | min | max | avg
+  | over | filter               -- wrappers around an aggregate: `agg OVER ()`, `agg FILTER (WHERE <boolean column>)`
   | cast (to : Ty)
   deriving DecidableEq, Repr, Inhabited
 
@@ -109,26 +112,36 @@ def castTargets : List Ty :=
   [.boolean, .tinyint, .smallint, .int, .bigint, .double, .decimalP, .text, .date, .timestampntz]
 
 def UnK.all : List UnK :=
-  [.neg, .not, .isNull, .length, .upper, .lower, .abs, .sqrt, .ln, .exp, .sign, .year, .month, .day, .extractYear, .count, .sum, .min, .max, .avg,
-   .sumOver, .maxOver, .countOver, .avgOver] ++ castTargets.map .cast
+  [.neg, .not, .isNull, .length, .upper, .lower, .abs, .sqrt, .ln, .exp, .sign, .ceil, .floor, .round, .year, .month, .day,
+   .extractYear, .count, .sum, .min, .max, .avg, .over, .filter] ++ castTargets.map .cast
 
 inductive BinK
-  | add | sub | mul | div | intdiv | mod | pow | eq | neq | lt | le | gt | ge | and | or | dpipe | like | coalesce | nullif | concat
+  | add | sub | mul | div | intdiv | mod | pow | eq | neq | lt | le | gt | ge | and | or | dpipe | like
+  | coalesce | nullif | concat | greatest | least | corr
   deriving DecidableEq, Repr, Inhabited
 
 def BinK.all : List BinK :=
-  [.add, .sub, .mul, .div, .intdiv, .mod, .pow, .eq, .neq, .lt, .le, .gt, .ge, .and, .or, .dpipe, .like, .coalesce, .nullif, .concat]
+  [.add, .sub, .mul, .div, .intdiv, .mod, .pow, .eq, .neq, .lt, .le, .gt, .ge, .and, .or, .dpipe, .like, .coalesce, .nullif,
+   .concat, .greatest, .least, .corr]
 
 inductive TernK | caseWhen | iff
   deriving DecidableEq, Repr, Inhabited
 
 def TernK.all : List TernK := [.caseWhen, .iff]
 
+/-- n-ary forms: COALESCE(a1..an), GREATEST, LEAST, CASE WHEN c THEN a1 WHEN c THEN a2 ... ELSE an END (n ≥ 1; the WHEN
+    conditions are a BOOLEAN column: they do not take part in the typing on either side) -/
+inductive NaryK | coalesce | greatest | least | caseN
+  deriving DecidableEq, Repr, Inhabited
+
+def NaryK.all : List NaryK := [.coalesce, .greatest, .least, .caseN]
+
 /-- the sqlglot node classes whose EXPRESSION_METADATA entry the model reads -/
 inductive NodeC
-  | neg | not | is | length | upper | lower | abs | sqrt | ln | exp | sign | year | month | day | extract | count | sum | min | max | avg
-  | window | cast
+  | neg | not | is | length | upper | lower | abs | sqrt | ln | exp | sign | ceil | floor | round
+  | year | month | day | extract | count | sum | min | max | avg | window | filter | cast
   | add | sub | mul | div | intdiv | mod | pow | eq | neq | lt | le | gt | ge | and | or | dpipe | like | coalesce | nullif | concat
+  | greatest | least | corr
   | case | if_ | literal | null | boolean | interval
   deriving DecidableEq, Repr, Inhabited
 
@@ -155,6 +168,7 @@ inductive Meta
   | notModelled                                     -- anything else (the translator also reports a structure change)
   deriving DecidableEq, Repr, Inhabited
 
+
 structure Tables where
   coercesTo : Ty → Ty → Bool                 -- b ∈ COERCES_TO[a]
   integerTypes : Ty → Bool
@@ -167,6 +181,7 @@ structure Tables where
   duckUn : UnK → ETy → ETy                   -- A-duck
   duckBin : BinK → ETy → ETy → ETy
   duckTern : TernK → ETy → ETy → ETy         -- over the two branches; the condition must be BOOLEAN
+  duckJoin : NaryK → ETy → ETy → ETy         -- pairwise join of n-ary branch classes (string literals stay literals)
   duckCol : Ty → ETy                         -- typeof(column of that declared type)
 
 section
@@ -287,29 +302,35 @@ def leafReturns (c : NodeC) : Ty :=
   | .returns t => t
   | _ => .unknown
 
+
 def unNode : UnK → NodeC
   | .neg => .neg | .not => .not | .isNull => .is | .length => .length | .upper => .upper | .lower => .lower | .abs => .abs
-  | .sqrt => .sqrt | .ln => .ln | .exp => .exp | .sign => .sign
+  | .sqrt => .sqrt | .ln => .ln | .exp => .exp | .sign => .sign | .ceil => .ceil | .floor => .floor | .round => .round
   | .year => .year | .month => .month | .day => .day | .extractYear => .extract
-  | .count | .countOver => .count | .sum | .sumOver => .sum | .min => .min | .max | .maxOver => .max | .avg | .avgOver => .avg
+  | .count => .count | .sum => .sum | .min => .min | .max => .max | .avg => .avg
+  | .over => .window | .filter => .filter
   | .cast _ => .cast
 
-def isOver : UnK → Bool
-  | .sumOver | .maxOver | .countOver | .avgOver => true
+/-- `agg OVER ()` = Window(this = agg), `agg FILTER (WHERE c)` = Filter(this = agg, expression = Where(c)) -/
+def isWrap : UnK → Bool
+  | .over | .filter => true
+  | _ => false
+
+def isAgg : UnK → Bool
+  | .count | .sum | .min | .max | .avg => true
   | _ => false
 
 def annotUn (k : UnK) (a : Sm) : Ty :=
-  let inner : Ty :=
-    match k with
-    | .isNull => annotNode T .is [a, .of (leafReturns T .null)] .unknown     -- `a IS NULL` = Is(a, Null())
-    | .cast to => annotNode T .cast [a] to
-    | k => annotNode T (unNode k) [a] .unknown
-  if isOver k then annotNode T .window [.of inner] .unknown else inner        -- Window(this = the aggregate)
+  match k with
+  | .isNull => annotNode T .is [a, .of (leafReturns T .null)] .unknown     -- `a IS NULL` = Is(a, Null())
+  | .cast to => annotNode T .cast [a] to
+  | k => annotNode T (unNode k) [a] .unknown
 
 def binNode : BinK → NodeC
-  | .add => .add | .sub => .sub | .mul => .mul | .div => .div | .intdiv => .intdiv | .mod => .mod | .pow => .pow | .eq => .eq | .neq => .neq
-  | .lt => .lt | .le => .le | .gt => .gt | .ge => .ge | .and => .and | .or => .or | .dpipe => .dpipe | .like => .like
-  | .coalesce => .coalesce | .nullif => .nullif | .concat => .concat
+  | .add => .add | .sub => .sub | .mul => .mul | .div => .div | .intdiv => .intdiv | .mod => .mod | .pow => .pow | .eq => .eq
+  | .neq => .neq | .lt => .lt | .le => .le | .gt => .gt | .ge => .ge | .and => .and | .or => .or | .dpipe => .dpipe
+  | .like => .like | .coalesce => .coalesce | .nullif => .nullif | .concat => .concat | .greatest => .greatest
+  | .least => .least | .corr => .corr
 
 def annotBin (k : BinK) (a b : Sm) : Ty := annotNode T (binNode k) [a, b] .unknown
 
@@ -320,19 +341,74 @@ def ternNode : TernK → NodeC
 /-- children in the order (condition, then-branch, else-branch) -/
 def annotTern (k : TernK) (c a b : Sm) : Ty := annotNode T (ternNode k) [c, a, b] .unknown
 
-/-- typed expressions -/
+def naryNode : NaryK → NodeC
+  | .coalesce => .coalesce | .greatest => .greatest | .least => .least | .caseN => .case
+
+/-- the by-args entry (classified on a two-branch sample) takes every branch: `this` + `expressions` for
+    Coalesce/Greatest/Least, every THEN + the default (and not the condition) for Case -/
+def branchMask (k : NaryK) (m : List Bool) : Bool :=
+  match k with
+  | .caseN => m == [false, true, true]
+  | _ => m == [true, true]
+
+/-- `_annotate_by_args` over arbitrarily many branches -/
+def annotNary (k : NaryK) (args : List Sm) : Ty :=
+  match T.md (naryNode k) with
+  | .returns t => t
+  | .byArgs m p => if branchMask k m then byArgs T args p else .unknown
+  | _ => .unknown
+
+/-- an expression made of string literals only is a VARCHAR value for whoever consumes it -/
+def resolveE : ETy → ETy
+  | .strlit => .text
+  | e => e
+
+/-- A-duck (n-ary): the engine's class of COALESCE/GREATEST/LEAST/CASE is the left fold of the pairwise join -/
+def engNary (k : NaryK) : List ETy → ETy
+  | [] => .error
+  | e :: rest => resolveE (rest.foldl (T.duckJoin k) e)
+
+/-- A-duck (wrappers): `agg OVER ()` / `agg FILTER (WHERE c)` have the aggregate's own type -/
+def engUn (k : UnK) (ea : ETy) : ETy := if isWrap k then resolveE ea else T.duckUn k ea
+
+/-- how a column reference is qualified -/
+inductive Qual | none | this | other
+  deriving DecidableEq, Repr, Inhabited
+
+/-- a flat one-table schema `{"t": {name: type}}`; names are the normalised (lower-case) identifiers -/
+abbrev Schema := List (String × Ty)
+
+mutual
+/-- typed expressions over the columns of one table -/
 inductive TExpr
-  | col (t : Ty)
+  | col (q : Qual) (name : String)
   | intLit | decLit | strLit (i : Iso) | nullLit | boolLit
   | interval (dateUnit : Bool)
   | un (k : UnK) (a : TExpr)
   | bin (k : BinK) (a b : TExpr)
   | tern (k : TernK) (c a b : TExpr)
-  deriving Repr, Inhabited
+  | nary (k : NaryK) (args : TArgs)
+inductive TArgs
+  | nil
+  | cons (e : TExpr) (rest : TArgs)
+end
 
+instance : Inhabited TExpr := ⟨.nullLit⟩
+
+variable (S : Schema)
+
+/-- `_annotate_expression` on a Column: only a column qualified with a table that is a source of the scope is looked up
+    (`schema.get_column_type`, UNKNOWN when the schema has no such column); an unqualified column, or one qualified with
+    something that is not a source, is left UNKNOWN (annotate_types does not qualify). -/
+def annotCol (q : Qual) (name : String) : Ty :=
+  match q with
+  | .this => (S.lookup name).getD .unknown
+  | _ => .unknown
+
+mutual
 /-- the annotator's view of a node after annotating it (bottom-up, as `_annotate_expression`'s explicit stack does) -/
 def sm : TExpr → Sm
-  | .col t => .of t
+  | .col q n => .of (annotCol S q n)
   | .intLit => if T.md .literal = .literal then .intLit else .of .unknown
   | .decLit => if T.md .literal = .literal then .decLit else .of .unknown
   | .strLit i => if T.md .literal = .literal then .strLit i else .of .unknown
@@ -342,27 +418,42 @@ def sm : TExpr → Sm
   | .un k a => .of (annotUn T k (sm a))
   | .bin k a b => .of (annotBin T k (sm a) (sm b))
   | .tern k c a b => .of (annotTern T k (sm c) (sm a) (sm b))
+  | .nary k args => .of (annotNary T k (smArgs args))
+def smArgs : TArgs → List Sm
+  | .nil => []
+  | .cons e rest => sm e :: smArgs rest
+end
 
 /-- the type `_annotate_expression` leaves on the node -/
-def annot (e : TExpr) : Ty := (sm T e).ty
+def annot (e : TExpr) : Ty := (sm T S e).ty
 
 /-- after `annotate`: NULL-typed nodes are rewritten to DEFAULT_NULL_TYPE -/
 def finalTy (t : Ty) : Ty := if t = .null then T.defaultNullType else t
 
-def annotFinal (e : TExpr) : Ty := finalTy T (annot T e)
+def annotFinal (e : TExpr) : Ty := finalTy T (annot T S e)
 
+mutual
 /-- A-duck: the engine's class for an expression, composed from the class-level table -/
 def eng : TExpr → ETy
-  | .col t => T.duckCol t
+  | .col q n =>
+    match q, S.lookup n with
+    | .other, _ => .error             -- no such table
+    | _, some t => T.duckCol t        -- DuckDB resolves an unqualified column of the only table
+    | _, none => .error
   | .intLit => .integer
   | .decLit => .decimal
   | .strLit _ => .strlit
   | .nullLit => .null
   | .boolLit => .boolean
   | .interval _ => .interval
-  | .un k a => T.duckUn k (eng a)
+  | .un k a => engUn T k (eng a)
   | .bin k a b => T.duckBin k (eng a) (eng b)
   | .tern k c a b => if eng c = .boolean then T.duckTern k (eng a) (eng b) else .error
+  | .nary k args => engNary T k (engArgs args)
+def engArgs : TArgs → List ETy
+  | .nil => []
+  | .cons e rest => eng e :: engArgs rest
+end
 
 end
 
@@ -374,12 +465,35 @@ def Rel (s : Sm) (e : ETy) : Bool :=
 
 def compat (s : Sm) : List ETy := ETy.all.filter (Rel s)
 
-/-! ### The domain of the agreement theorem (`WellFormed`)
+/-- operand summaries with an inferred type (an operand left UNKNOWN is outside `WellFormed`) -/
+def Sm.typed : List Sm := Sm.all.filter (· != .of .unknown)
 
-Class-level conditions on a node's operands, stated on what the annotator sees (`Sm`) and on the engine's operand classes.
-Everything outside is either rejected by DuckDB or one of the disagreement families listed in known_pending/C16.json
-(cross-chain operands where sqlglot keeps the first type, temporal differences, DATE ± INTERVAL, NULLIF, NULL-only arithmetic,
-`x || NULL`, fixed-point DECIMAL ∘ NULL ...). -/
+/-! ### The disagreement families
+
+Decidable predicates over operator × operand summaries (what the annotator sees) × operand engine classes. Properties/C16.lean
+proves by complete finite decision that, for typed operands, an operator/operand combination the engine accepts disagrees
+IF AND ONLY IF it is in one of these families; each family is a known-finding entry of the check. -/
+
+inductive Family
+  | nullOnlyArith        -- arithmetic / SUM over NULL literals only: sqlglot NULL -> UNKNOWN, DuckDB picks an integer overload
+  | decimalNullArith     -- fixed-point DECIMAL ∘ NULL: DuckDB reports the SQLNULL type
+  | strlitNullArith      -- string literal ∘ NULL: sqlglot VARCHAR, DuckDB a numeric overload
+  | concatNull           -- x || NULL: sqlglot VARCHAR, DuckDB SQLNULL
+  | dateInterval         -- DATE ± INTERVAL <date unit>: sqlglot DATE, DuckDB TIMESTAMP
+  | temporalDiff         -- <temporal | string literal | NULL> - <temporal>: sqlglot the coerced operand type, DuckDB BIGINT / INTERVAL
+  | mixedChainArith      -- operands from different chains: the first type (or a parameterised DECIMAL) is kept
+  | intervalMinusString  -- INTERVAL - 'literal': BINARY_COERCIONS types it as a date literal, DuckDB as INTERVAL
+  | mixedChainBranches   -- CASE / IF / COALESCE / GREATEST / LEAST branches from different chains
+  | sumBoolean           -- SUM(BOOLEAN): sqlglot BOOLEAN, DuckDB HUGEINT
+  | avgTemporal          -- AVG(date | timestamp | interval): sqlglot DOUBLE, DuckDB the temporal type
+  | ceilFloorInt         -- CEIL / FLOOR declared INT; DuckDB keeps DOUBLE / DECIMAL
+  | roundDouble          -- ROUND declared DOUBLE; DuckDB keeps the integer
+  | corrBinary           -- CORR typed as a Binary (coerced operand type); DuckDB DOUBLE
+  deriving DecidableEq, Repr, Inhabited
+
+def Family.all : List Family :=
+  [.nullOnlyArith, .decimalNullArith, .strlitNullArith, .concatNull, .dateInterval, .temporalDiff, .mixedChainArith,
+   .intervalMinusString, .mixedChainBranches, .sumBoolean, .avgTemporal, .ceilFloorInt, .roundDouble, .corrBinary]
 
 def smClass (s : Sm) : TyClass := classOf s.ty
 
@@ -387,86 +501,199 @@ def isNum (s : Sm) : Bool := smClass s == .integer || smClass s == .decimal
 
 def isNullTy (s : Sm) : Bool := s.ty == .null
 
-/-- the column types of the property's quantifier -/
+def isStr : Sm → Bool
+  | .strLit _ => true
+  | _ => false
+
+def isTemporal (s : Sm) : Bool := smClass s == .date || smClass s == .timestamp
+
+/-- the column types of the property's quantifier (as the duckdb dialect parses BOOLEAN, TINYINT..BIGINT, DOUBLE,
+    DECIMAL(18,3), VARCHAR, DATE, TIMESTAMP) -/
 def colTypes : List Ty :=
   [.boolean, .tinyint, .smallint, .int, .bigint, .double, .decimalP, .text, .date, .timestampntz]
 
-def domUn (k : UnK) (a : Sm) (_ea : ETy) : Bool :=
+def famUn (k : UnK) (a : Sm) (_ea : ETy) : Option Family :=
   match k with
-  | .not | .isNull | .count | .countOver => true
-  | .cast to => castTargets.contains to
-  | .neg | .abs | .sqrt | .ln | .exp | .sign | .sum | .sumOver | .avg | .avgOver => isNum a
-  | .length | .upper | .lower => smClass a == .text
-  | .year | .month | .day | .extractYear => smClass a == .date || smClass a == .timestamp
-  | .min | .max | .maxOver => true
+  | .neg | .abs => if isNullTy a then some .nullOnlyArith else none
+  | .sum => if isNullTy a then some .nullOnlyArith else if smClass a == .boolean then some .sumBoolean else none
+  | .avg => if isTemporal a || smClass a == .interval then some .avgTemporal else none
+  | .ceil | .floor => if isNum a || isNullTy a then some .ceilFloorInt else none
+  | .round => if smClass a == .integer || isNullTy a then some .roundDouble else none
+  | _ => none
 
-/-- branches of CASE / IF / COALESCE: within one coercion chain (both numeric, or the same class), or a NULL branch -/
-def branchesOk (a b : Sm) : Bool :=
-  (isNum a && isNum b) || smClass a == smClass b || isNullTy a || isNullTy b
+/-- CASE / IF / COALESCE / GREATEST / LEAST over two branches -/
+def famBranches (a b : Sm) : Option Family :=
+  if (smClass a == .boolean && smClass b == .integer)
+     || (a == .intLit && smClass b == .boolean)
+     || (smClass a == .date && b == .of .timestampntz)     -- TIMESTAMPNTZ is in no chain
+     || (isStr a && (b == .intLit || b == .decLit))
+  then some .mixedChainBranches else none
 
 def isArith : BinK → Bool
   | .add | .sub | .mul | .div | .intdiv | .mod | .pow => true
   | _ => false
 
-def domBin (k : BinK) (a b : Sm) (ea eb : ETy) : Bool :=
+def famBin (k : BinK) (a b : Sm) (ea eb : ETy) : Option Family :=
   match k with
-  | .eq | .neq | .lt | .le | .gt | .ge | .and | .or | .like | .concat => true
-  | .dpipe => ea != .null && eb != .null
-  | .coalesce => branchesOk a b
-  | .nullif => smClass a == smClass b || isNullTy b
-  | .pow => isNum a && isNum b
-  | k =>
-    -- arithmetic
-    (isNum a && isNum b)
-    || (isNum a && isNullTy b && ea != .decimal) || (isNullTy a && isNum b && eb != .decimal)
-    || ((k == .add || k == .sub) && smClass a == .date && smClass b == .integer)
-    || ((k == .add || k == .sub) && smClass a == .timestamp && smClass b == .interval)
+  | .coalesce | .greatest | .least => famBranches a b
+  | .dpipe => if ea == .null || eb == .null then some .concatNull else none
+  | .corr => if smClass a == .decimal || smClass b == .decimal then none else some .corrBinary
+  | .add | .sub | .mul | .intdiv | .mod | .div =>
+    if isNullTy a && isNullTy b && k != .div then some .nullOnlyArith
+    else if (k == .add || k == .sub || k == .mul || k == .mod) && ((ea == .decimal && isNullTy b) || (isNullTy a && eb == .decimal))
+      then some .decimalNullArith
+    else if k != .mul && ((isStr a && isNullTy b) || (isNullTy a && isStr b)) then some .strlitNullArith
+    else if (k == .add || k == .sub) && ((smClass a == .date && b == .iv true) || (k == .add && a == .iv true && smClass b == .date))
+      then some .dateInterval
+    else if k == .sub && isTemporal b && (isTemporal a || isStr a || isNullTy a) then some .temporalDiff
+    else if k == .sub && smClass a == .interval && isStr b then some .intervalMinusString
+    else if (k == .add && smClass a == .integer && !a.isLit && smClass b == .date)
+         || (k == .add && smClass a == .interval && smClass b == .timestamp)
+         || (k == .mul && isNum a && !a.isLit && smClass b == .interval)
+         || (k == .mul && smClass a == .interval && b == .of .decimalP)
+      then some .mixedChainArith
+    else none
+  | _ => none
 
-def domTern (_k : TernK) (a b : Sm) : Bool := branchesOk a b
+def famTern (_k : TernK) (a b : Sm) : Option Family := famBranches a b
 
+mutual
 def hasCol : TExpr → Bool
-  | .col _ => true
+  | .col _ _ => true
   | .un _ a => hasCol a
   | .bin _ a b => hasCol a || hasCol b
   | .tern _ c a b => hasCol c || hasCol a || hasCol b
+  | .nary _ args => hasColArgs args
   | _ => false
+def hasColArgs : TArgs → Bool
+  | .nil => false
+  | .cons e rest => hasCol e || hasColArgs rest
+end
 
 def isLeaf : TExpr → Bool
-  | .un _ _ | .bin _ _ _ | .tern _ _ _ _ => false
+  | .un _ _ | .bin _ _ _ | .tern _ _ _ _ | .nary _ _ => false
   | _ => true
 
 def isNullLit : TExpr → Bool
   | .nullLit => true
   | _ => false
 
+mutual
 /-- no NULL literal as a direct operand of a NULL-propagating operator (DuckDB's binder folds such a call to a constant NULL);
-    NULL literals remain allowed as CASE / IF branches and COALESCE arguments -/
+    NULL literals remain allowed as CASE / IF branches and COALESCE / GREATEST / LEAST arguments -/
 def nullSafe : TExpr → Bool
   | .un _ a => !isNullLit a && nullSafe a
   | .bin k a b => (k == .coalesce || (!isNullLit a && !isNullLit b)) && nullSafe a && nullSafe b
   | .tern _ c a b => !isNullLit c && nullSafe c && nullSafe a && nullSafe b
+  | .nary _ args => nullSafeArgs args
   | _ => true
+def nullSafeArgs : TArgs → Bool
+  | .nil => true
+  | .cons e rest => nullSafe e && nullSafeArgs rest
+end
 
 /-- an operand is a leaf, or mentions a column and is `nullSafe` (it is not folded to a constant at bind time) -/
 def operandOk (e : TExpr) : Bool := isLeaf e || (hasCol e && nullSafe e)
 
+/-- CAST only to the listed target types -/
+def unKnown : UnK → Bool
+  | .cast to => castTargets.contains to
+  | _ => true
+
+def isAggNode : TExpr → Bool
+  | .un k _ => isAgg k
+  | _ => false
+
+section
+variable (T : Tables) (S : Schema)
+
+/-- an operand the theorem talks about: well-scoped and with an inferred type -/
+def typedOperand (e : TExpr) : Bool := operandOk e && sm T S e != .of .unknown
+
+/-! n-ary branches: the state of `_annotate_by_args` (two accumulators) runs along the engine's running join -/
+
+/-- the by-args state seen as an operand summary -/
+def accSm (acc : Acc) : Option Sm :=
+  match acc.non, acc.lit with
+  | none, none => none
+  | none, some .int => some .intLit
+  | none, some .double => some .decLit
+  | none, some .varchar => some (.strLit .other)
+  | none, some l => some (.of l)
+  | some n, none => some (.of n)
+  | some n, some l => some (.of (coerce T n l))
+
+/-- one iteration of the loop of `_annotate_by_args` -/
+def byArgsStep (acc : Acc) (s : Sm) : Option Acc := byArgsLoop T [s] acc
+
+/-- a literal accumulator seen as a literal operand -/
+def litSm : Ty → Sm
+  | .int => .intLit
+  | .double => .decLit
+  | .varchar => .strLit .other
+  | t => .of t
+
+/-- the next branch is not a mixed-chain pair (`famBranches`) with the running result, nor with the LITERAL accumulator on its
+    own: `COALESCE('abc', t.i, 1.5)` keeps INT (the literal accumulator stays VARCHAR and the non-literal one wins) although
+    `COALESCE('abc', t.i)` and `COALESCE(t.i, 1.5)` both agree with DuckDB -/
+def stepOk (acc : Acc) (s : Sm) : Bool :=
+  match accSm T acc with
+  | none => true
+  | some r =>
+    (famBranches r s).isNone
+    && (match acc.lit with
+        | some l => (famBranches (litSm l) s).isNone
+        | none => true)
+
+/-- the states of the by-args loop run along the engine's running join: every further branch stays in chain (`stepOk`) and
+    the join table accepts it -/
+def naryRun (k : NaryK) : Acc → ETy → List Sm → List ETy → Bool
+  | _, _, [], [] => true
+  | acc, e, s :: ss, es :: ess =>
+    stepOk T acc s
+    && (match byArgsStep T acc s with
+        | none => false
+        | some acc' => T.duckJoin k e es != .error && naryRun k acc' (T.duckJoin k e es) ss ess)
+  | _, _, _, _ => false
+
+def naryOk (k : NaryK) (ss : List Sm) (es : List ETy) : Bool :=
+  match ss, es with
+  | s :: ss', e :: es' =>
+    (match byArgsStep T ⟨none, none⟩ s with
+     | none => false
+     | some acc => naryRun T k acc e ss' es')
+  | _, _ => false
+
+mutual
+/-- `WellFormed`: columns are qualified columns of the table with one of the property's types; every operand is well-scoped
+    (see `operandOk`) and has an inferred type; every node is accepted by the engine table and is in none of the disagreement
+    families; an n-ary node's branches stay in one coercion chain (`stepOk`). -/
+def WF : TExpr → Bool
+  | .col q n => q == .this && (match S.lookup n with | some t => colTypes.contains t | none => false)
+  | .intLit | .decLit | .strLit _ | .nullLit | .boolLit | .interval _ => true
+  | .un k a =>
+    WF a && typedOperand T S a && (!isWrap k || isAggNode a) && unKnown k
+    && (famUn k (sm T S a) (eng T S a)).isNone && engUn T k (eng T S a) != .error
+  | .bin k a b =>
+    WF a && WF b && (typedOperand T S a && typedOperand T S b)
+    && (famBin k (sm T S a) (sm T S b) (eng T S a) (eng T S b)).isNone && T.duckBin k (eng T S a) (eng T S b) != .error
+  | .tern k c a b =>
+    WF c && WF a && WF b && (typedOperand T S c && typedOperand T S a && typedOperand T S b) && eng T S c == .boolean
+    && (famTern k (sm T S a) (sm T S b)).isNone && T.duckTern k (eng T S a) (eng T S b) != .error
+  | .nary k args =>
+    WFArgs args && naryOk T k (smArgs T S args) (engArgs T S args) && argsTyped args
+def WFArgs : TArgs → Bool
+  | .nil => true
+  | .cons e rest => WF e && WFArgs rest
+def argsTyped : TArgs → Bool
+  | .nil => true
+  | .cons e rest => typedOperand T S e && argsTyped rest
+end
+
+end
+
 section
 variable (T : Tables)
-
-/-- `WellFormed`: every node is inside the domain and accepted by the engine table; columns have one of the property's types;
-    every compound operand mentions a column and has no NULL literal under a NULL-propagating operator (DuckDB folds constant
-    operands at bind time, and a constant that folds to NULL is typed like the NULL literal by some functions whatever its
-    declared type — outside a class-level table; at the root, `t.i + NULL` etc. are covered by the table). -/
-def WF : TExpr → Bool
-  | .col t => colTypes.contains t
-  | .intLit | .decLit | .strLit _ | .nullLit | .boolLit | .interval _ => true
-  | .un k a => WF a && operandOk a && domUn k (sm T a) (eng T a) && T.duckUn k (eng T a) != .error
-  | .bin k a b =>
-    WF a && WF b && (operandOk a && operandOk b)
-    && domBin k (sm T a) (sm T b) (eng T a) (eng T b) && T.duckBin k (eng T a) (eng T b) != .error
-  | .tern k c a b =>
-    WF c && WF a && WF b && (operandOk c && operandOk a && operandOk b) && eng T c == .boolean
-    && domTern k (sm T a) (sm T b) && T.duckTern k (eng T a) (eng T b) != .error
 
 /-! the finite obligations on the tables (decided completely in Properties/C16.lean against the generated tables) -/
 
@@ -477,21 +704,106 @@ def leafCheck : Bool :=
   && Rel (.of (leafReturns T .null)) .null
   && Rel (.of (leafReturns T .boolean)) .boolean
 
+/-- for typed operands: accepted ⇒ (agrees ⇔ in no family) -/
 def unCheck : Bool :=
-  UnK.all.all fun k => Sm.all.all fun a => (compat a).all fun ea =>
-    !(domUn k a ea) || T.duckUn k ea == .error || Rel (.of (annotUn T k a)) (T.duckUn k ea)
+  UnK.all.all fun k => Sm.typed.all fun a => (compat a).all fun ea =>
+    engUn T k ea == .error || ((famUn k a ea).isNone == Rel (.of (annotUn T k a)) (engUn T k ea))
 
 def binCheck : Bool :=
-  BinK.all.all fun k => Sm.all.all fun a => Sm.all.all fun b => (compat a).all fun ea => (compat b).all fun eb =>
-    !(domBin k a b ea eb) || T.duckBin k ea eb == .error || Rel (.of (annotBin T k a b)) (T.duckBin k ea eb)
+  BinK.all.all fun k => Sm.typed.all fun a => Sm.typed.all fun b => (compat a).all fun ea => (compat b).all fun eb =>
+    T.duckBin k ea eb == .error || ((famBin k a b ea eb).isNone == Rel (.of (annotBin T k a b)) (T.duckBin k ea eb))
+
+/-- the condition of CASE / IF takes no part in the typing -/
+def ternCondCheck : Bool :=
+  TernK.all.all fun k => Sm.all.all fun c => Sm.typed.all fun a => Sm.typed.all fun b =>
+    annotTern T k c a b == annotTern T k (.of .boolean) a b
 
 def ternCheck : Bool :=
-  TernK.all.all fun k => Sm.all.all fun c => Sm.all.all fun a => Sm.all.all fun b =>
-    (compat a).all fun ea => (compat b).all fun eb =>
-      !(domTern k a b) || T.duckTern k ea eb == .error || Rel (.of (annotTern T k c a b)) (T.duckTern k ea eb)
+  TernK.all.all fun k => Sm.typed.all fun a => Sm.typed.all fun b => (compat a).all fun ea => (compat b).all fun eb =>
+    T.duckTern k ea eb == .error
+    || ((famTern k a b).isNone == Rel (.of (annotTern T k (.of .boolean) a b)) (T.duckTern k ea eb))
 
-def TablesOk : Bool := leafCheck T && unCheck T && binCheck T && ternCheck T
+/-! n-ary -/
+
+def litTys : List (Option Ty) := [none, some .int, some .double, some .varchar]
+
+def Acc.all : List Acc := litTys.flatMap fun l => (none :: Ty.all.map some).map fun n => ⟨l, n⟩
+
+def litOk (acc : Acc) : Bool := litTys.contains acc.lit
+
+/-- the by-args state and the engine's running (unresolved) join describe the same kind of value -/
+def InvN (acc : Acc) (e : ETy) : Bool :=
+  match accSm T acc with
+  | none => false
+  | some s => Rel s e && s != .of .unknown
+
+def naryPromote (k : NaryK) : Option Bool :=
+  match T.md (naryNode k) with
+  | .byArgs m p => if branchMask k m then some p else none
+  | _ => none
+
+def finishTy (p : Bool) (acc : Acc) : Ty := if p then promoteTy T (byArgsResult T acc) else byArgsResult T acc
+
+def naryCheck : Bool :=
+  -- the metadata entries take every branch
+  (NaryK.all.all fun k => (naryPromote T k).isSome)
+  -- the first branch establishes the invariant
+  && (Sm.typed.all fun s => (compat s).all fun es =>
+        match byArgsStep T ⟨none, none⟩ s with
+        | none => false
+        | some acc => InvN T acc es && litOk acc)
+  -- every in-chain step preserves it
+  && (NaryK.all.all fun k => Acc.all.all fun acc =>
+        match accSm T acc with
+        | none => true
+        | some r => (compat r).all fun e => Sm.typed.all fun s => (compat s).all fun es =>
+            !(InvN T acc e && litOk acc && stepOk T acc s) ||
+            (match byArgsStep T acc s with
+             | none => true
+             | some acc' => T.duckJoin k e es == .error || (InvN T acc' (T.duckJoin k e es) && litOk acc')))
+  -- at the end the by-args result and the resolved join agree
+  && (NaryK.all.all fun k => Acc.all.all fun acc =>
+        match accSm T acc with
+        | none => true
+        | some r => (compat r).all fun e =>
+            !(InvN T acc e) || Rel (.of (finishTy T ((naryPromote T k).getD false) acc)) (resolveE e))
+
+def TablesOk : Bool :=
+  leafCheck T && unCheck T && binCheck T && ternCondCheck T && ternCheck T && naryCheck T
+
+/-- the depth-1 census: (accepted, agreeing, disagreeing per family) over operator × typed operand summaries × compatible
+    engine classes -/
+def censusUn : List (Option Family) :=
+  UnK.all.flatMap fun k => Sm.typed.flatMap fun a => (compat a).filterMap fun ea =>
+    if engUn T k ea == .error then none else some (famUn k a ea)
+def censusBin : List (Option Family) :=
+  BinK.all.flatMap fun k => Sm.typed.flatMap fun a => Sm.typed.flatMap fun b => (compat a).flatMap fun ea =>
+    (compat b).filterMap fun eb => if T.duckBin k ea eb == .error then none else some (famBin k a b ea eb)
+def censusTern : List (Option Family) :=
+  TernK.all.flatMap fun k => Sm.typed.flatMap fun a => Sm.typed.flatMap fun b => (compat a).flatMap fun ea =>
+    (compat b).filterMap fun eb => if T.duckTern k ea eb == .error then none else some (famTern k a b)
 
 end
+
+/-! ### decimals' precision / scale
+
+sqlglot never computes a precision or scale: `_maybe_coerce` returns a parameterised `type1` as it is, else a parameterised
+`type2` as it is ("we assume type1 does not coerce into type2"), and `_annotate_div` works on `.this` (parameters dropped).
+DuckDB computes DECIMAL(p, s) results with storage-width dependent caps; the property compares type CLASSES only, and the
+class of DECIMAL arithmetic is in the engine table (`decimal` / `double`). -/
+
+structure Dec where
+  p : Nat
+  s : Nat
+  deriving DecidableEq, Repr
+
+/-- the parameters of `_maybe_coerce(type1, type2)` when the operands are numeric and `none` = not parameterised -/
+def sgDecCoerce (a b : Option Dec) : Option Dec :=
+  match a with
+  | some d => some d
+  | none => b
+
+/-- the parameters of the type annotated on `a <op> b` (both non-literal operands): by-args for + - * %, `_annotate_div` for / -/
+def sgDecArith (isDiv : Bool) (a b : Option Dec) : Option Dec := if isDiv then none else sgDecCoerce a b
 
 end SqlglotModel.Types
